@@ -31,3 +31,22 @@ Theorem C04_terms_interior_only : forall (F : FieldOps) (m : Mesh F) (bc : BCs F
   forall g, interior F m g = false -> in_range F m g -> bc_lhs F m bc x g = bc_rhs F m bc g.
 Proof. intros F m bc ts ts' x [_ H] g Hg Hr. exact (H g Hg Hr). Qed.
 Print Assumptions C04_terms_interior_only.
+
+(* uniqueness for the transient / diffusion / upwind (divergence-free) / sink systems of C07: the solution the solver returns is
+   THE solution (over R; ghost cells tied to their inner neighbours by Dirichlet or no-flux rows) *)
+From Coq Require Import Reals.
+From PFV Require Import ConservThy MaxPrincipleThy MaxPrincipleModel.
+Local Open Scope R_scope.
+Theorem C04_unique_if_dominant : forall (m : Mesh ROps) (D u : fvar ROps) (x y alpha beta old : cvar ROps) (dt : R) (cells : list cell),
+  cells <> nil ->
+  (forall c a, In c cells -> In a (active_axes ROps m) -> (1 <= cidx a c <= mN ROps m a)%nat /\ signs_ok m D c a) ->
+  (forall c, In c cells -> alpha c / dt * (x c - old c) + rsuml (fun a => axis_term m D u x a c) (active_axes ROps m) + beta c * x c = 0) ->
+  (forall c, In c cells -> alpha c / dt * (y c - old c) + rsuml (fun a => axis_term m D u y a c) (active_axes ROps m) + beta c * y c = 0) ->
+  (forall c, In c cells -> rsuml (fun a => divrow ROps m u a c) (active_axes ROps m) = 0) ->
+  (forall c, In c cells -> 0 < alpha c /\ 0 <= beta c) -> 0 < dt ->
+  (forall c a, In c cells -> In a (active_axes ROps m) ->
+     (In (cdn a c) cells \/ (x (cdn a c) - y (cdn a c) = x c - y c \/ x (cdn a c) - y (cdn a c) = - (x c - y c))) /\
+     (In (cup a c) cells \/ (x (cup a c) - y (cup a c) = x c - y c \/ x (cup a c) - y (cup a c) = - (x c - y c)))) ->
+  forall c, In c cells -> x c = y c.
+Proof. exact solution_unique. Qed.
+Print Assumptions C04_unique_if_dominant.
